@@ -472,7 +472,36 @@ def check_C20(chk, tier):
                   qtimeout_ms=(3000 if cplx else 8000) if q else 60000, env=CPLX_ENV if cplx else None, validate_samples=0)
 
 
-REGISTRY = {"C20": check_C20, "C07": check_C07, "C14": check_C14, "C10": check_C10, "C08": check_C08, "C18": check_C18, "C05": check_C05, "C06": check_C06, "C01": check_C01, "C02": check_C02, "C03": check_C03, "C04": check_C04}
+# ------------------------------------------------------------------------------------------------ C19 memory safety over lifecycles
+def check_C19(chk, tier):
+    chk.assumptions += COMMON_ASSUME + ["every harness is rebuilt with -fsanitize=address,undefined on the C->IR step (ASan/UBSan instrumentation is in the IR the FP rewrite runs on); integer state on a symbolically explored path is concrete, so the sanitizer verdict is exact for that path and the solver supplies the feasible paths",
+                                        "leaks: ledger of every malloc/calloc/realloc/free made by library code; after the caller destroyed the objects it was handed nothing allocated during the call sequence may be live",
+                                        "uninitialised FP data: malloc'ed memory is poison-filled with a reserved NaN pattern; an FP operation reading it is a violation; uninitialised integers are not tracked (no MSan twin in this build)",
+                                        "readers are covered by C16's CBMC harnesses (bounds/pointer checks), not here"]
+    q = tier == "quick"; kw = dict(asan=True, crash_is_violation=True, event_violations=("uninit-fp",), validate_samples=0, monitor_ids=("heap_errors",))
+    fc = [c for c in factor_cases("quick", "C03", "d") if c[1] <= 2] + [fcase(3, 3, p, tune=tn, umode=um) for p in (511, C.band(3, 1, 1), C.arrow(3)) for tn, um in (("t1nn_f1", 0), ("t221_f1", 1), ("t122", 0))]
+    for n_, pat in ((5, C.dense(5, 5)), (6, C.band(6, 2, 2)), (7, C.dense(7, 7)), (10, C.band(10, 4, 1))):
+        for tn in ("t1nn_f1", "t221_f1", "tn1n", "t2_4_4"):
+            for fill in (1, 2, 3): cs_t = tuple(T[tn][:5]) + (fill,); fc.append(fcase(n_, n_, pat, tune=cs_t, symcols=1 << (n_ - 1)))
+    if not q: fc += factor_cases("quick", "C02", "d")
+    run_phase(chk, "factor(asan)/d", H + "h_factor.c", fc, ["C19."], prec="d", budget_s=240 if q else 1800, bounds="factor lifecycle incl. fill estimates 1..3 (arrays ending at / just before capacity), singular outcomes", **kw)
+    gc = [c for c in gssv_cases("quick", "d") if c[0] <= 2][:60] + [gcase(3, 511, storage=st, tune="t1nn_f1") for st in (0, 1)] + [gcase(n_, C.dense(n_, n_), storage=1, tune=tuple(T["t1_8_8"][:5]) + (f,), symcols=0, nrhs=2, ldbx=1) for n_ in (5, 9) for f in (1, 2)]
+    run_phase(chk, "gssv(asan)/d", H + "h_gssv.c", gc, ["C19."], prec="d", budget_s=200 if q else 900, bounds="simple driver lifecycle, NC/NR, singular and successful outcomes", **kw)
+    xc = [xcase(2, 15, hist=h, trans=t, storage=st, symcols=sc, tune="t1nn_f1") for h, t, st, sc in ((1, 1, 0, -1), (1, 2, 1, -1), (14, 12, 0, 2), (13, 21, 1, 2), (124, 123, 0, 2), (134, 213, 1, 2))] + \
+         [xcase(2, 15, lworkmode=-1, storage=st, equil=e) for st in (0, 1) for e in (0, 1)] + [xcase(3, 511, symcols=0, equil=1, refine=1, cond=1, growth=1, nrhs=1, trans=t, storage=st) for t in (1, 2) for st in (0, 1)] + \
+         [xcase(5, C.dense(5, 5), symcols=16, hist=134, trans=121, tune="t1nn_f1")]
+    run_phase(chk, "gssvx(asan)/d", H + "h_gssvx.c", xc, ["C19."], prec="d", budget_s=200 if q else 900, bounds="expert driver histories incl. singular results and size queries", key_extra=lambda c: {"storage": str(c[2]), "trans": str(c[16]), "hist": str(c[15])}, **kw)
+    kc = [c for c in kernel_cases("quick", "d") if c[0] in (3, 4)][:40] + [c for c in kernel_cases("quick", "d") if c[0] in (1, 2)][:40]
+    run_phase(chk, "kernels(asan)/d", H + "h_kernels.c", kc, ["C19.", "C14.factors"], prec="d", budget_s=150, bounds="kernels on real factor pairs", **kw)
+    sc_ = [c for c in storage_cases("quick", "d")][::3]
+    run_phase(chk, "storage(asan)/d", H + "h_storage.c", sc_, ["C19.", "C07.workspace"], prec="d", budget_s=150, bounds="complete and incomplete LU under expansions / caller workspace", **kw)
+    bc = [bcase(3, 511, C.band(3, 1, 0), symcols=4, nsolve=2, nrhs=2, ldbx=2, two=1), bcase(2, 15, symcols=-1), bcase(5, C.dense(5, 5), C.arrow(5), symcols=0, nsolve=3, nrhs=3, ldbx=3, two=1)]
+    run_phase(chk, "bridge(asan)/d", H + "h_bridge.c", bc, ["C19.", "C20.free"], prec="d", budget_s=100, extra_src=(REPO + "/FORTRAN/c_fortran_dgssv.c",), bounds="Fortran bridge factor/solve/free", **kw)
+    if not q:
+        run_phase(chk, "factor(asan)/z", H + "h_factor.c", [c for c in fc if c[1] <= 2 or c[14] != -1][:150], ["C19."], prec="z", budget_s=900, bounds="complex factor lifecycle", env=CPLX_ENV, **kw)
+
+
+REGISTRY = {"C19": check_C19, "C20": check_C20, "C07": check_C07, "C14": check_C14, "C10": check_C10, "C08": check_C08, "C18": check_C18, "C05": check_C05, "C06": check_C06, "C01": check_C01, "C02": check_C02, "C03": check_C03, "C04": check_C04}
 
 
 def run(pid, tier):
